@@ -294,9 +294,12 @@ def run : Mon → List Out → Option Mon
     | some m' => run m' os
     | none => none
 
-/-- after the action loop: `switch { case activeSubs > 0: c.resumeSubscriptions(ctx) … }` -/
+/-- after the action loop:
+    `switch { case activeSubs > 0: resume … case len(c.SubscriptionIDs()) > 0: resume … default: … }` —
+    the loop is resumed when something was republished / recreated or when subscriptions
+    are still registered (restored session) -/
 def finish (m : Mon) : Mon :=
-  if m.activeSubs > 0 then { m with loop := .running } else m
+  if m.activeSubs > 0 ∨ m.subs ≠ [] then { m with loop := .running } else m
 
 /-- the `action = …` targets of each case, in source order (compared with the
     generated table) -/
